@@ -1,6 +1,18 @@
 package main
 
-// ufState holds the calls of uninterpreted hash functions on the current path (Ackermann constraints).
+import (
+	"crypto/sha256"
+	"crypto/sha3"
+	"fmt"
+	"go/types"
+
+	"golang.org/x/tools/go/ssa"
+)
+
+// Uninterpreted hash functions: a call with symbolic input returns fresh symbolic bytes constrained
+// (Ackermann) to be functional AND collision-free with respect to every other call of the same tag on this
+// path. Collision-freeness is the stated cryptographic assumption. Concrete inputs get the real digest.
+
 type ufState struct {
 	calls []ufCall
 }
@@ -9,4 +21,131 @@ type ufCall struct {
 	tag string
 	in  []*Term
 	out []*Term
+}
+
+func realHash(tag string, n int, data []byte) []byte {
+	switch tag {
+	case "shake256":
+		h := sha3.NewSHAKE256()
+		h.Write(data)
+		out := make([]byte, n)
+		h.Read(out)
+		return out
+	case "sha256":
+		s := sha256.Sum256(data)
+		return s[:n]
+	}
+	// generic: sha256(tag || 0 || data) stretched
+	var out []byte
+	ctr := byte(0)
+	for len(out) < n {
+		h := sha256.New()
+		h.Write([]byte(tag))
+		h.Write([]byte{0, ctr})
+		h.Write(data)
+		out = h.Sum(out)
+		ctr++
+	}
+	return out[:n]
+}
+
+func (in *Interp) hashUF(tag string, n int, data []*Term) []*Term {
+	if in.uf == nil {
+		in.uf = &ufState{}
+	}
+	conc := true
+	for _, t := range data {
+		if !t.isC {
+			conc = false
+			break
+		}
+	}
+	var out []*Term
+	if conc {
+		bs := make([]byte, len(data))
+		for i, t := range data {
+			bs[i] = byte(t.c)
+		}
+		for _, b := range realHash(tag, n, bs) {
+			out = append(out, C(8, uint64(b)))
+		}
+	} else {
+		base := in.nvars
+		in.nvars++
+		for i := 0; i < n; i++ {
+			name := fmt.Sprintf("h%d_%d", base, i)
+			in.sol.Declare(name, 8)
+			out = append(out, V(name, 8))
+		}
+	}
+	eqAll := func(a, b []*Term) *Term {
+		if len(a) != len(b) {
+			return tFalse
+		}
+		r := tTrue
+		for i := len(a) - 1; i >= 0; i-- {
+			r = And(Eq(a[i], b[i]), r)
+		}
+		return r
+	}
+	for _, c := range in.uf.calls {
+		if c.tag != tag {
+			continue
+		}
+		ine := eqAll(c.in, data)
+		oute := eqAll(c.out, out)
+		in.assume(Eq(ine, oute))
+	}
+	in.uf.calls = append(in.uf.calls, ufCall{tag: tag, in: data, out: out})
+	return out
+}
+
+func init() {
+	// verifHashUF(tag string, n int, data []byte) []byte
+	verifAPI["verifHashUF"] = func(in *Interp, fn *ssa.Function, args []Value) Value {
+		tag := in.concStr(args[0])
+		n := in.concInt(args[1])
+		return in.byteSlice(in.hashUF(tag, n, in.bytesOf(args[2])))
+	}
+	// shake256.NewDigestForContent(reader) (Digest, error): read everything through the real io.ReadAll SSA,
+	// digest = UF("shake256")
+	reg("github.com/bufbuild/buf/private/pkg/shake256.NewDigestForContent", func(in *Interp, fn *ssa.Function, args []Value) Value {
+		iopkg := in.prog.ImportedPackage("io")
+		if iopkg == nil {
+			in.abort("io not loaded")
+		}
+		res := in.call(iopkg.Func("ReadAll"), []Value{args[0]}, nil).(Tuple)
+		if err := res[1].(Iface); err.t != nil {
+			return Tuple{Iface{}, err}
+		}
+		out := in.hashUF("shake256", 64, in.bytesOf(res[0]))
+		dt := fn.Pkg.Type("digest").Type()
+		a := in.newAgg(1)
+		a.e[0] = in.byteSlice(out)
+		return Tuple{Iface{t: types.NewPointer(dt), v: Ptr{obj: in.newCell(a)}}, Iface{}}
+	})
+	// crypto/sha256.New() hash.Hash -> harness-side accumulator whose Sum is UF("sha256")
+	reg("crypto/sha256.New", func(in *Interp, fn *ssa.Function, args []Value) Value {
+		f := in.harnessFunc("verifNewHash")
+		return Iface{t: f.Signature.Results().At(0).Type(), v: in.call(f, []Value{strOf("sha256"), CI(32)}, nil)}
+	})
+	reg("crypto/sha256.Sum256", func(in *Interp, fn *ssa.Function, args []Value) Value {
+		out := in.hashUF("sha256", 32, in.bytesOf(args[0]))
+		a := in.newAgg(32)
+		for i, t := range out {
+			a.e[i] = t
+		}
+		return a
+	})
+}
+
+// harnessFunc finds a function of the harness runtime in the package of the current lemma.
+func (in *Interp) harnessFunc(name string) *ssa.Function {
+	if in.lem != nil && in.lem.pkg != nil {
+		if f := in.lem.pkg.Func(name); f != nil {
+			return f
+		}
+	}
+	in.abort("harness runtime function %s not found", name)
+	return nil
 }
